@@ -113,6 +113,11 @@ class SymbolCounter:
         if node.is_reference and node.is_local and not self.is_bound(node.name):
             self.freevars.add(node.name)
 
+        # Names used by inline Python code and by repetition counts.
+        for name in getattr(node, 'local_names', ()):
+            if not self.is_bound(name):
+                self.freevars.add(name)
+
     def postvisit(self, node):
         if node.defines_local:
             self._counts[node.name] -= 1
